@@ -5,6 +5,8 @@ pub struct ExecutableMemory {
 impl ExecutableMemory {
   pub fn new() -> Self {
     let size: usize = super::INITIAL_MEMORY_SIZE;
+    #[cfg(gb_dynarec_verif)]
+    let size: usize = crate::verif::arena_size().unwrap_or(size);
     let memory_area = unsafe {
       let pointer: *mut std::ffi::c_void = libc::mmap(
         std::ptr::null_mut(),
